@@ -198,12 +198,17 @@ def resizable(wf) -> bool:
 def summary(pulse: Pulse) -> list:
     amp = pulse.amplitude.samples.as_array(detach=True)
     det = pulse.detuning.samples.as_array(detach=True)
+    finite = bool(np.all(np.isfinite(amp)) and np.all(np.isfinite(det)))
+    if not finite:
+        amp = np.nan_to_num(amp, nan=0.0, posinf=0.0, neginf=0.0)
+        det = np.nan_to_num(det, nan=0.0, posinf=0.0, neginf=0.0)
     return [
         float(np.max(amp)),
         float(np.average(amp)),
         float(np.max(np.round(np.abs(det), decimals=6))),
         float(np.max(np.round(det, 6))),
         float(np.min(np.round(det, 6))),
+        int(finite),
     ]
 
 
@@ -238,8 +243,8 @@ def pulse_oracle(pulse: Pulse, ch) -> dict:
         amp=0.0,
         det=0.0,
     )
-    if ch is None:
-        return info
+    if ch is None or not info["sum"][5]:
+        return info      # (no fall times for undeclared channels or non-finite samples)
     d2 = adjusted_duration(ch, pulse.duration)
     adj = pulse
     if d2 is not None and d2 != pulse.duration:
@@ -307,6 +312,7 @@ ERR_PATTERNS = [
     (ValueError, r"duration has to be at least", "durTooShort"),
     (ValueError, r"duration can be at most", "durTooLong"),
     (TypeError, r"Failed to automatically adjust", "notResizable"),
+    (ValueError, r"must have finite samples", "nonFinite"),
     (ValueError, r"amplitude goes over the maximum", "ampOverMax"),
     (ValueError, r"detuning values go out of the range", "detOverMax"),
     (ValueError, r"average amplitude is below", "avgAmpLow"),
@@ -375,7 +381,7 @@ class RealSeq:
 
     def eom_oracle(self, w: str, amp: float, det_on: float, optimal: float) -> dict:
         ch = self.chobj(w)
-        out = dict(opts=[], on=[0, 0, 0, 0, 0], offs=[])
+        out = dict(opts=[], on=[0, 0, 0, 0, 0, 1], offs=[])
         if ch is None or not ch.supports_eom() or amp < 0:
             return out
         with warnings.catch_warnings():
